@@ -35,6 +35,15 @@ Proof. intros cm H r l. rewrite H. apply full_spec. Qed.
 Theorem C04_regex_prepare_plain : forall e, forallb plain_char e = true -> regex_prepare e = e.
 Proof. exact prepare_plain. Qed.
 
+(* listed known finding (regex-class-heuristic): the third pass takes a `]` that stands for itself after a complete class into
+   that class.  As written, [a]b] is the class [a], then b, then ]: its language holds ab].  What the crate is given is one class
+   of three characters, whose language does not hold ab] *)
+Example C04_regex_class_heuristic_refuted :
+  regex_prepare [91; 97; 93; 98; 93] = [91; 97; 92; 93; 98; 93]
+  /\ full (Seq (Cls false [97]) (Seq (Chr 98) (Chr 93))) [97; 98; 93] = true
+  /\ full (Cls false [97; 93; 98]) [97; 98; 93] = false.
+Proof. repeat split; vm_compute; reflexivity. Qed.
+
 Check C04_glob : forall p s, glob_match p s = true <-> GMatch p s.
 Check C04_regex_whole_line : forall s r, full r s = true <-> Lang r s.
 
